@@ -273,6 +273,14 @@ def queries_part(case, res):
         last = datetime.datetime(2021, rng.randint(1, 12), rng.randint(1, 28), rng.randint(0, 23), rng.randint(0, 59), 0)
         unit = rng.choice([None, datetime.timedelta(minutes=1), datetime.timedelta(hours=3), datetime.timedelta(days=1), datetime.timedelta(minutes=45)])
         setit = rng.random() < 0.5
+        aware = rng.random() < 0.3
+        if aware:
+            # a date WITH a time zone that has daylight-saving time: chart rows map index k to init + k * unit in the
+            # arithmetic of that datetime (wall clock), so the last step must fall on the given date in that arithmetic too
+            from .common import rule_zone
+            last = last.replace(tzinfo=rule_zone(), hour=rng.randint(3, 23))
+            unit = rng.choice([None, datetime.timedelta(hours=3), datetime.timedelta(days=1), datetime.timedelta(hours=12)])
+            res.count("C19.date_checks.time_zone_with_dst")
         old_init = p.init_datetime
         got = p.set_last_datetime(last, unit_timedelta=unit, set_init_datetime=setit)
         u = unit if unit is not None else datetime.timedelta(days=1)
@@ -283,6 +291,13 @@ def queries_part(case, res):
             res.violate("C19", "C19/set-last-datetime:init-not-set", "init_datetime %s != returned %s" % (p.init_datetime, got))
         if not setit and p.init_datetime != old_init:
             res.violate("C19", "C19/set-last-datetime:init-changed", "init_datetime changed although set_init_datetime=False")
+        # ... and the chart row of a task that is WORKING at the last step only starts on the given date
+        t_last = ns.BaseTask("last_step")
+        t_last.state_record_list = [TS.NONE] * (p.time - 1) + [TS.WORKING]
+        rows = t_last.create_data_for_gantt_plotly(got, u, finish_margin=1.0)
+        res.count("C19.date_checks.row_of_last_step")
+        if [r["Start"] for r in rows] != [last.strftime(FMT)]:
+            res.violate("C19", "C19/set-last-datetime:last-row", "time=%d unit=%s last=%s: the chart row of the last step starts at %r" % (p.time, u, last, [r["Start"] for r in rows]))
 
 
 def simlogs_part(case, res):
